@@ -89,6 +89,24 @@ def _io_nodes(cfg: CFG, kinds=("send", "recv", "poll")) -> List[Node]:
     return out
 
 
+def _choices(root: ast.AST) -> List[Tuple[ast.AST, ast.AST, ast.AST, ast.AST, ast.AST]]:
+    """(statement, target, test, value when the test holds, value otherwise) for every choice between two values of one target inside root,
+    whichever way it is spelled: `t = a if c else b`, or `if c: t = a` / `else: t = b` with nothing else in the two branches (without an
+    `else` the local keeps its value: `t = a if c else t`)."""
+    out = []
+    for s in walk_no_nested(root):
+        if isinstance(s, ast.Assign) and len(s.targets) == 1 and isinstance(s.value, ast.IfExp):
+            out.append((s, s.targets[0], s.value.test, s.value.body, s.value.orelse))
+        elif isinstance(s, ast.AnnAssign) and isinstance(s.value, ast.IfExp):
+            out.append((s, s.target, s.value.test, s.value.body, s.value.orelse))
+        elif isinstance(s, ast.If) and len(s.body) == 1 and len(s.orelse) == 1 and all(isinstance(x, ast.Assign) and len(x.targets) == 1 for x in (s.body[0], s.orelse[0])) \
+                and ast.dump(s.body[0].targets[0]) == ast.dump(s.orelse[0].targets[0]):
+            out.append((s, s.body[0].targets[0], s.test, s.body[0].value, s.orelse[0].value))
+        elif isinstance(s, ast.If) and len(s.body) == 1 and not s.orelse and isinstance(s.body[0], ast.Assign) and len(s.body[0].targets) == 1 and isinstance(s.body[0].targets[0], ast.Name):
+            out.append((s, s.body[0].targets[0], s.test, s.body[0].value, ast.Name(id=s.body[0].targets[0].id, ctx=ast.Load())))
+    return out
+
+
 def _guard_tests(cfg: CFG, want_const: str, exc: str) -> List[Node]:
     """`if self._state != AsyncState.<want_const>: raise <exc>` test nodes."""
     out = []
@@ -384,9 +402,12 @@ def _close(ck: Check, repo: Repo, cls: Cls) -> None:
             ck.ob("C13.5", fn, calls[0] if calls else t, bool(calls) and calls[0].args and dotted(calls[0].args[0]) == "timeout",
                   "a pending call is awaited with the caller's timeout")
     ck.ob("C13.5", fn, tries[0] if tries else fn.node, ok, "a timeout while waiting for the pending call switches to terminate()")
-    ck.ob("C13.5", fn, fn.node, has(fn.node, '$timeout = 0 if $terminate else $timeout'), "terminate=True does not wait", construct="timeout = 0 if terminate")
-    # terminate branch
-    tests = [n for n in cfg.live_nodes() if n.kind == "test" and dotted(n.ast) == "terminate"]
+    # (either spelling of the choice: conditional expression or if / else statement; the two locals are whatever they are called, but distinct)
+    choices = _choices(fn.node)
+    ck.ob("C13.5", fn, fn.node, any(isinstance(t, ast.Name) and isinstance(c, ast.Name) and c.id != t.id and isinstance(a, ast.Constant) and const_value(a) == 0 and type(a.value) is int
+                                     and isinstance(b, ast.Name) and b.id == t.id for _, t, c, a, b in choices), "terminate=True does not wait", construct="timeout = 0 if terminate")
+    # terminate branch (the `if terminate:` statement that acts; a choice of a value spelled as a statement is not it)
+    tests = [n for n in cfg.live_nodes() if n.kind == "test" and dotted(n.ast) == "terminate" and not any(n.stmt is s for s, _, _, _, _ in choices)]
     okt = False
     for t in tests:
         body = ast.Module(body=t.stmt.body, type_ignores=[])
@@ -466,6 +487,14 @@ VARIANTS = [
      "        for pipe in self.parent_pipes:\n            pipe.recv()\n\n    def close_extras", "fire", "C13.3"),
     ("wait-try-finally-ok", _AV, "        results, successes = zip(*[pipe.recv() for pipe in self.parent_pipes])\n        self._raise_if_errors(successes)\n        self._state = AsyncState.DEFAULT\n        return results",
      "        try:\n            results, successes = zip(*[pipe.recv() for pipe in self.parent_pipes])\n            self._raise_if_errors(successes)\n        finally:\n            self._state = AsyncState.DEFAULT\n        return results", "silent", None),
+    # the choice of the timeout spelled as a statement instead of a conditional expression
+    ("close-timeout-choice-if-statement-ok", _AV, "        timeout = 0 if terminate else timeout\n", "        if terminate:\n            timeout = 0\n        else:\n            timeout = timeout\n", "silent", None),
+    ("close-timeout-choice-one-armed-ok", _AV, "        timeout = 0 if terminate else timeout\n", "        if terminate:\n            timeout = 0\n", "silent", None),
+    ("close-timeout-choice-negated-ok", _AV, "        timeout = 0 if terminate else timeout\n", "        if not terminate:\n            timeout = timeout\n        else:\n            timeout = 0\n", "silent", None),
+    ("close-terminate-waits-if-statement", _AV, "        timeout = 0 if terminate else timeout\n", "        if terminate:\n            timeout = None\n        else:\n            timeout = timeout\n", "fire", "C13.5"),
+    ("close-terminate-waits", _AV, "        timeout = 0 if terminate else timeout\n", "        timeout = None if terminate else timeout\n", "fire", "C13.5"),
+    ("close-timeout-dropped-if-statement", _AV, "        timeout = 0 if terminate else timeout\n", "        if terminate:\n            timeout = 0\n        else:\n            timeout = None\n", "fire", "C13.5"),
+    ("close-graceful-no-acknowledgement", _AV, "            for pipe in self.parent_pipes:\n                if (pipe is not None) and (not pipe.closed):\n                    pipe.recv()\n", "", "fire", "C13.5"),
     # behaviour-preserving renames of locals (the rules must go by role, not by spelling)
     ("poll-locals-renamed-ok", _AV, "        for pipe in self.parent_pipes:\n            delta = max(end_time - time.perf_counter(), 0)\n\n            if pipe is None:\n                return False\n            if pipe.closed or (not pipe.poll(delta)):\n                return False\n",
      "        for conn in self.parent_pipes:\n            remaining = max(end_time - time.perf_counter(), 0)\n\n            if conn is None:\n                return False\n            if conn.closed or (not conn.poll(remaining)):\n                return False\n", "silent", None),
